@@ -19,6 +19,7 @@ import (
 
 	"github.com/Cloud-Foundations/keymaster/lib/instrumentedwriter"
 	"github.com/Cloud-Foundations/keymaster/lib/webapi/v0/proto"
+	"github.com/pquerna/otp"
 	"github.com/pquerna/otp/totp"
 )
 
@@ -399,7 +400,14 @@ func (state *RuntimeState) validateUserTOTP(username string, OTPValue int, t tim
 	// Check if there is a value successfully accepted for that counter value
 	const defaultPeriod = 30
 	counter := int64(math.Floor(float64(t.Unix()) / float64(defaultPeriod)))
-	if profile.LastSuccessfullTOTPCounter == counter {
+	// A code is one-time: never accept a code at or before the counter of the
+	// last accepted one. The in-memory copy covers the disconnected (cached
+	// DB) case where the profile cannot be saved.
+	lastAcceptedCounter := profile.LastSuccessfullTOTPCounter
+	if userRateLimit.lastSuccessCounter > lastAcceptedCounter {
+		lastAcceptedCounter = userRateLimit.lastSuccessCounter
+	}
+	if lastAcceptedCounter >= counter {
 		logger.Printf("validateUserTOTP: already done TOTP within time period")
 		return false, nil
 	}
@@ -415,12 +423,29 @@ func (state *RuntimeState) validateUserTOTP(username string, OTPValue int, t tim
 			return false, err
 		}
 
-		valid := totp.Validate(OTPString, string(clearTextKey))
-		if !valid {
+		// Same acceptance window as totp.Validate (one period of skew), but we
+		// need to know which counter matched.
+		matchedCounter := int64(-1)
+		for candidate := counter - 1; candidate <= counter+1; candidate++ {
+			ok, err := totp.ValidateCustom(OTPString, string(clearTextKey),
+				time.Unix(candidate*defaultPeriod, 0),
+				totp.ValidateOpts{Period: defaultPeriod, Skew: 0,
+					Digits: otp.DigitsSix, Algorithm: otp.AlgorithmSHA1})
+			if err == nil && ok {
+				matchedCounter = candidate
+				break
+			}
+		}
+		if matchedCounter < 0 {
 			continue
 		}
+		if matchedCounter <= lastAcceptedCounter {
+			logger.Printf("validateUserTOTP: TOTP code already used")
+			return false, nil
+		}
+		userRateLimit.lastSuccessCounter = matchedCounter
 		if !fromCache {
-			profile.LastSuccessfullTOTPCounter = counter
+			profile.LastSuccessfullTOTPCounter = matchedCounter
 			err = state.SaveUserProfile(username, profile)
 			if err != nil {
 				logger.Printf("Saving profile error: %v", err)
